@@ -116,6 +116,7 @@ def random_cases(rng, n, handled):
         for _ in range(rng.randrange(0, 3)):
             w["domains"].append({"c": rng.randrange(1, nc + 1)})
         aux = rng.random() < 0.3
+        faulty = rng.random() < 0.3
         nm = len(w["mappings"]) + sum(1 for c in w["codes"] if c["act"])
         ncode, nd = len(w["codes"]), len(w["domains"])
         steps = []
@@ -154,6 +155,8 @@ def random_cases(rng, n, handled):
                     continue
                 alive.discard(who)     # CloseConnection: the stream is gone, the connection cannot be registered again
                 bound.pop(who, None)
+            if faulty and rng.random() < 0.15:
+                kw["fault"] = rng.randrange(1, 10)      # the k-th storage call made while this command is handled fails
             steps.append(step(conn, who, cmd, **kw))
             # object counters as the harness will number them (only used to aim later steps at fresh objects)
             if cmd == CODE_GEN:
@@ -267,6 +270,100 @@ def overlap_value(case, out):
     return [9, ths, overlap_schedule(case), out["obs"]]
 
 
+# ---- pending tables keyed by a client-chosen id: colliding ids, foreign answers (harness pending.go, Model/Pending.v) ----
+def pending_cases():
+    """attacker client 1 (mapping to accomplice client 2) and victim client 3 (mapping to client 4); all the orphaned
+    requests of one case time out together (5 s)"""
+    reqs, ops, tail = [], [], []
+
+    def q(conn, cmd, tgt, rid):
+        reqs.append({"conn": conn, "cmd": cmd, "tgt": tgt, "id": rid})
+        ops.append([0, len(reqs) - 1])
+        return len(reqs) - 1
+    for cmd in (DNS_RESOLVE, DNS_QUERY):
+        # S1: attacker's request in flight, victim registers the same id; accomplice answers twice; then the genuine answer
+        a = q(1, cmd, 2, "s1-%d" % cmd)
+        v = q(3, cmd, 4, "s1-%d" % cmd)
+        ops.extend([[1, a, 2, 66], [1, a, 2, 67], [1, v, 4, 7], [2, v]])
+        tail.append(a)
+        # S2: a stranger and an unknown connection answer the victim's request first
+        v = q(3, cmd, 4, "s2-%d" % cmd)
+        ops.extend([[1, v, 1, 66], [1, v, -1, 67], [1, v, 2, 68], [1, v, 4, 8], [2, v]])
+        # S3: the id is re-used after the attacker's request completed; the accomplice answers again
+        a = q(1, cmd, 2, "s3-%d" % cmd)
+        ops.extend([[1, a, 2, 5], [2, a]])
+        v = q(3, cmd, 4, "s3-%d" % cmd)
+        ops.extend([[1, v, 2, 66], [1, v, 4, 9], [2, v]])
+        # S4: the attacker registers the victim's id AFTER the victim (the victim is orphaned — availability, not identity)
+        v = q(3, cmd, 4, "s4-%d" % cmd)
+        a = q(1, cmd, 2, "s4-%d" % cmd)
+        ops.extend([[1, v, 4, 10], [1, a, 2, 6], [2, a]])
+        tail.append(v)
+    ops.append([2] + tail)
+    return [{"mode": "pending", "tag": "pending", "nclients": 4, "online": [True] * 4, "aux": False,
+             "mappings": [{"l": 1, "t": 2, "proto": "socks"}, {"l": 3, "t": 4, "proto": "socks"}], "codes": [], "domains": [],
+             "reqs": reqs, "ops": ops}]
+
+
+def pending_value(case, out):
+    ids = {}
+    evs = []
+    for op in case["ops"]:
+        if op[0] == 0:
+            i = op[1]
+            n = ids.setdefault(case["reqs"][i]["id"], len(ids) + 1)
+            if out["forwarded"][i]:
+                evs.append([0, n, i, out["forwarded"][i]])
+        elif op[0] == 1:
+            n = ids.setdefault(case["reqs"][op[1]]["id"], len(ids) + 1)
+            evs.append([1, n, op[2] if op[2] > 0 else 99, op[3]])
+        else:
+            for i in op[1:]:
+                if out["forwarded"][i]:
+                    evs.append([2, ids[case["reqs"][i]["id"]]])
+    return [8, evs, out["got"]]
+
+
+# ---- one storage call fails while a command is handled (harness faultstore.go, Model/Commands.v exec_faulty) ----
+GUARD1 = (MAP_GET, MAP_DEL, TRAFFIC, SOCKS, DOM_DEL)     # one lookup read before the party decision (guard_reads)
+FAULT_SCENARIOS = [(MAP_DEL, {"obj": 0}), (MAP_DEL, {"obj": 3}), (MAP_GET, {"obj": 0}), (TRAFFIC, {"obj": 0, "sent": 5, "recv": 5}),
+                   (SOCKS, {"obj": 0}), (CODE_ACT, {"obj": 0}), (CODE_ACT, {"obj": 1}), (CODE_GEN, {}), (CODE_LIST, {}), (DOM_CREATE, {}),
+                   (DOM_DEL, {"obj": 0}), (DOM_DEL, {"obj": 1}), (DOM_LIST, {}), (MAP_LIST, {}), (CONFIG_GET, {}),
+                   (DNS_RESOLVE, {"tgt": 2}), (DNS_QUERY, {"tgt": 0}), (NOTIFY, {"tgt": 2})]
+FAULT_SENDERS = [("auth", 3), ("auth", 1), ("auth", 2), ("unknown", 0), ("pending", 1)]
+
+
+def fault_probe_cases():
+    out = []
+    for cmd, kw in FAULT_SCENARIOS:
+        for conn, who in FAULT_SENDERS:
+            out.append(dict(copy.deepcopy(WORLD), mode="case", aux=True, tag="fault-probe", steps=[step(conn, who, cmd, fault=-1, **kw)]))
+    return out
+
+
+def fault_cases(probes, pouts, cap):
+    """for every scenario: one case per storage-call position (the k-th call made while the command is handled fails)"""
+    out = []
+    for c, o in zip(probes, pouts):
+        n = min(o["steps"][0]["calls"], cap)
+        for k in range(1, n + 1):
+            t = copy.deepcopy(c)
+            t["steps"][0]["fault"] = k
+            t["tag"] = "fault"
+            out.append(t)
+    return out
+
+
+def fault_in_model(case, out):
+    """faulted steps the model speaks about: the fault was not reached, or it hit the lookup read before the party decision;
+    a fault after a GRANTED decision cuts the party's own mutation short (Go-side predicate only)"""
+    for s, so in zip(case["steps"], out["steps"]):
+        k = s.get("fault", 0)
+        if k > 0 and so["fault_fired"] and not (s["cmd"] in GUARD1 and k == 1):
+            return False
+    return True
+
+
 def answer_cases():
     """a forwarded DNS request answered on another client's / an unknown connection (recorded finding)"""
     out = []
@@ -328,7 +425,8 @@ def case_value(case, out, flags):
             obj = [s["obj"]]
         tgt = None if s["tgt"] == 0 else [999] if s["tgt"] < 0 or s["tgt"] > case["nclients"] else [s["tgt"]]
         steps.append([KIND[s["conn"]], s["who"], s["cmd"], s["resp"], obj, tgt, s["dir"], s["sent"], s["recv"], s["valid"],
-                      s["claim"] if 0 < s["claim"] <= case["nclients"] else 0, obs])
+                      s["claim"] if 0 < s["claim"] <= case["nclients"] else 0, obs,
+                      s["fault"] if s.get("fault", 0) > 0 and o.get("fault_fired") else 0])
         for key, rows in (("m", o["mappings"]), ("c", o["codes"]), ("d", o["domains"])):
             for r in rows:
                 seen[key] = max(seen[key], r[0] + 1)
@@ -405,6 +503,12 @@ def run(ctx, only_cases=None):
         cases += history_cases(handled, [NOTIFY])
         cases += answer_cases()
         cases += random_cases(ctx.rng, 2500 if thorough else 250, [h for h in HANDLED])
+    pend = [c for c in cases if c.get("mode") == "pending"] + (pending_cases() if only_cases is None else [])
+    cases = [c for c in cases if c.get("mode") != "pending"]
+    if only_cases is None:
+        probes = fault_probe_cases()
+        pouts = vlib.run_harness(binary, probes, timeout=600)
+        cases += fault_cases(probes, pouts, 24 if thorough else 12)
     ovl = [c for c in cases if c.get("mode") == "overlap"] + (overlap_cases(ctx.rng, 120 if thorough else 24) if only_cases is None else [])
     cases = [c for c in cases if c.get("mode") != "overlap"]
     twins = [honest_twin(c) for c in cases if twin_wanted(c)]
@@ -415,6 +519,10 @@ def run(ctx, only_cases=None):
             raise vlib.Broken("C11 harness world setup failed", json.dumps({"case": c, "err": o["setup_err"]})[:3000])
     couts = outs[:len(cases)]
     touts = outs[len(cases):len(cases) + len(twins)]
+    pnouts = vlib.run_harness(binary, pend, timeout=900) if pend else []
+    for c, o in zip(pend, pnouts):
+        if o.get("setup_err"):
+            raise vlib.Broken("C11 harness pending-table setup failed", json.dumps({"err": o["setup_err"]})[:3000])
     oouts = vlib.run_harness(binary, ovl, timeout=900) if ovl else []
     for c, o in zip(ovl, oouts):
         if o.get("setup_err"):
@@ -436,6 +544,14 @@ def run(ctx, only_cases=None):
             small = c if key in ctx.known else shrink_steps(binary, c, i, key)
             ctx.violation(key, "real command stack: %s (step: %s)" % (so["prop_msg"], json.dumps(c["steps"][i])),
                           {"case": small, "step": len(small["steps"]) - 1 if small is not c else i, "observed": so})
+    # pending tables: an answer reaches a requester only from the connection its request was forwarded to
+    for c, o in zip(pend, pnouts):
+        if not o["prop_ok"]:
+            nfail += 1
+            if o["prop_key"] not in reported:
+                reported.add(o["prop_key"])
+                ctx.violation(o["prop_key"], "real DNS pending table: %s" % o["prop_msg"],
+                              {"case": c, "forwarded": o["forwarded"], "got": o["got"]})
     # overlapping commands: a still-running handler keeps seeing its own command's context
     for c, o in zip(ovl, oouts):
         if not o["prop_ok"]:
@@ -464,8 +580,9 @@ def run(ctx, only_cases=None):
     stale = [k for f, (_, keys) in DEFECTS.items() if flags[f] for k in keys if k in ctx.known]
 
     # (ii) model vs implementation
-    mcases = [(c, o) for c, o in zip(cases, couts)] + [(c, o) for c, o in zip(ovl, oouts)]
-    terms = [case_value(c, o, flags) for c, o in zip(cases, couts)] + [overlap_value(c, o) for c, o in zip(ovl, oouts)]
+    mcases = [(c, o) for c, o in zip(cases, couts) if fault_in_model(c, o)] + list(zip(ovl, oouts)) + list(zip(pend, pnouts))
+    terms = ([case_value(c, o, flags) for c, o in zip(cases, couts) if fault_in_model(c, o)] + [overlap_value(c, o) for c, o in zip(ovl, oouts)]
+             + [pending_value(c, o) for c, o in zip(pend, pnouts)])
     mism = []
     try:
         res, pred = vlib.model_eval(PROP, terms, predict=True)
@@ -485,11 +602,11 @@ def run(ctx, only_cases=None):
         if o["prop_ok"] and not ctx.violations:
             ctx.violation("model-mismatch", "Corr/C11.check: the Commands model (table variant %s) and the real command stack disagree on a case on "
                           "which the Go-side predicate holds; the theorems of Properties/C11.v no longer speak about this code" % json.dumps(flags),
-                          {"case": c, "observed": [project(s) for s in o["steps"]] if "steps" in o else o.get("obs"), "model": pred[i] if pred else None}, found_input=False)
+                          {"case": c, "observed": [project(s) for s in o["steps"]] if "steps" in o else o.get("obs", o.get("got")), "model": pred[i] if pred else None}, found_input=False)
         elif not o["prop_ok"] and not any(k for k in reported if k not in ctx.known):
             # the predicate failed only with known keys, yet the model (which has the matching pinned rows) disagrees
             ctx.violation("model-mismatch", "Corr/C11.check: model (table variant %s) and real command stack disagree" % json.dumps(flags),
-                          {"case": c, "observed": [project(s) for s in o["steps"]] if "steps" in o else o.get("obs"), "model": pred[i] if pred else None}, found_input=False)
+                          {"case": c, "observed": [project(s) for s in o["steps"]] if "steps" in o else o.get("obs", o.get("got")), "model": pred[i] if pred else None}, found_input=False)
 
     # coverage
     distinct, nontrivial = set(), set()
@@ -518,6 +635,14 @@ def run(ctx, only_cases=None):
             dist["steps_with_delivery"] += 1 if so["deliveries"] else 0
             dist["steps_changing_storage"] += 1 if changed else 0
             prev = so
+    dist["fault_cases"] = sum(1 for c in cases if c.get("tag") == "fault")
+    dist["fault_cases_fired"] = sum(1 for c, o in zip(cases, couts) if c.get("tag") == "fault" and o["steps"][0]["fault_fired"])
+    dist["fault_cases_in_model_diff"] = sum(1 for c, o in zip(cases, couts) if c.get("tag") == "fault" and fault_in_model(c, o))
+    dist["fault_cases_by_nonparty_or_unauth_fired"] = sum(
+        1 for c, o in zip(cases, couts) if c.get("tag") == "fault" and o["steps"][0]["fault_fired"] and o["steps"][0]["mappings"] == o["init"]["mappings"])
+    dist["pending_cases"] = len(pend)
+    dist["pending_requests"] = sum(len(c["reqs"]) for c in pend)
+    dist["pending_foreign_answers_sent"] = sum(1 for c, o in zip(pend, pnouts) for op in c["ops"] if op[0] == 1 and op[2] != o["forwarded"][op[1]])
     dist["overlap_cases"] = len(ovl)
     dist["overlap_commands_by_kind"] = {k: sum(1 for c in ovl for t in c["threads"] if t["kind"] == k) for k in OVL_KINDS}
     dist["overlap_observations"] = sum(len(x) for o in oouts for x in o["obs"])
